@@ -291,6 +291,7 @@ PROPS = {
                                                 "userData_txn_eq_commit", "userVersions_txn_eq_commit", "rollback_discards",
                                                 "begin_refused", "versions_merge_witness", "inv_step"]],
         "streams": ["l1.store"],
+        "also_reports": ["C20"],   # the tombstone oracle of the same stream (tombstoning inside an open transaction)
         "rule": "the l1.store sequences (well-formed data: per user versions increase with epochs, rewriting a (user, epoch) "
                 "keeps its version) with committed and pending records for the same users; every read inside a transaction is "
                 "compared with the model and, by the oracle, with the same read on a copy of the database after committing the "
@@ -354,8 +355,11 @@ PROPS = {
         "theorems": ["Akd.C20." + t for t in ["tombstone_keeps_tree", "tombstone_epochHash", "tombstone_audit",
                                                "tombstone_other_lookup", "tombstone_own_lookup", "tombstone_then_publish"]]
                     + ["Akd.C05.membership_sound_leaf"],
-        "streams": ["l1.dir.c20"],
-        "rule": "histories with tombstone_value_states(label, cut) at random points (cut below the label's latest update), followed by "
+        "streams": ["l1.dir.c20", "l1.store"],
+        "rule": "l1.store: StorageManager::tombstone_value_states outside and INSIDE an open transaction (every dense case cuts "
+                "the user with the most states in the middle while the transaction is open): the manager's view of the user's "
+                "states before and after must differ exactly by the states of epoch <= cut becoming tombstones; "
+                "l1.dir.c20: histories with tombstone_value_states(label, cut) at random points (cut below the label's latest update), followed by "
                 "further publishes; after each: epoch hash vs specification (unchanged), every label's lookup (oracle spec.lookup), "
                 "every label's history for 4 parameters in both verification modes (oracle spec.history.tomb: allow => same "
                 "versions/epochs with tombstoned values empty; default => rejected iff the range contains a tombstoned entry), audit",
